@@ -179,3 +179,71 @@ Definition default_args : cal_args := mk_args None None None None.
 (* `key not in calendars or holidays is not None or weekend is not None or t0 is not None or t1 is not None` *)
 Definition call_arg (h w : option (list Z)) (a b : option Z) : option cal_args :=
   match h, w, a, b with None, None, None, None => None | _, _, _, _ => Some (mk_args h w a b) end.
+
+(* ---- registry with the lazily populated tables ----
+   A registered Calendar object carries its constructor arguments v AND, once _populate has run on it,
+   the cached tables (dt2int / int2dt).  `calendars[key] = Calendar(...)` stores a FRESH object (no tables);
+   a table-path method (add with |n| > 1, bdays, drange 'b', clock) on the fetched object populates it in place. *)
+Section RegistryT.
+Variables V T : Type.
+Variable build : V -> T.          (* _populate for the arguments v *)
+Variable default : V.
+Definition tentry := (V * option T)%type.
+Inductive rop :=
+  | OCall (k : Z) (arg : option V)        (* calendar(key, ...): arg = None when no argument is given *)
+  | OObj (k : Z) (f : V -> option V)      (* c = calendar(key); calendar(c, ...): f (arguments of c) = the merged arguments, None when no argument is given *)
+  | OUse (k : Z).                         (* c = calendar(key); a table-path method of c *)
+Definition t_call (st : registry tentry) (k : Z) (arg : option V) : registry tentry * V :=
+  match arg with
+  | Some v => (reg_set k (v, None) st, v)
+  | None => match reg_lookup k st with
+            | Some (v, _) => (st, v)
+            | None => (reg_set k (default, None) st, default)
+            end
+  end.
+Definition t_obj (st : registry tentry) (k : Z) (f : V -> option V) : registry tentry * V :=
+  let '(st1, v) := t_call st k None in
+  match f v with Some v' => (reg_set k (v', None) st1, v') | None => (st1, v) end.
+(* the table the method call reads (and caches) *)
+Definition t_use (st : registry tentry) (k : Z) : registry tentry * T :=
+  match reg_lookup k st with
+  | Some (v, Some t) => (st, t)
+  | Some (v, None) => (reg_set k (v, Some (build v)) st, build v)
+  | None => (reg_set k (default, Some (build default)) st, build default)
+  end.
+Definition t_step (st : registry tentry) (o : rop) : registry tentry :=
+  match o with OCall k arg => fst (t_call st k arg) | OObj k f => fst (t_obj st k f) | OUse k => fst (t_use st k) end.
+Definition t_run (ops : list rop) (st : registry tentry) : registry tentry := fold_left t_step ops st.
+(* what calendar(k) is built from / which table a table-path call on calendar(k) reads, in state st *)
+Definition t_args (st : registry tentry) (k : Z) : V :=
+  match reg_lookup k st with Some (v, _) => v | None => default end.
+Definition t_table (st : registry tentry) (k : Z) : T := snd (t_use st k).
+(* every cached table was built from the arguments stored next to it *)
+Definition coherent (st : registry tentry) : Prop :=
+  forall k v t, reg_lookup k st = Some (v, Some t) -> t = build v.
+(* SPEC: the registrations alone (no objects, no caches): key -> arguments last registered *)
+Definition spec_step (g : Z -> V) (o : rop) : Z -> V :=
+  match o with
+  | OCall k (Some v) => fun k' => if k =? k' then v else g k'
+  | OCall k None => g
+  | OObj k f => match f (g k) with Some v' => fun k' => if k =? k' then v' else g k' | None => g end
+  | OUse k => g
+  end.
+Definition spec_run (ops : list rop) (g : Z -> V) : Z -> V := fold_left spec_step ops g.
+End RegistryT.
+Arguments OCall {V}. Arguments OObj {V}. Arguments OUse {V}.
+Arguments t_call {V T}. Arguments t_obj {V T}. Arguments t_use {V T}. Arguments t_step {V T}. Arguments t_run {V T}.
+Arguments t_args {V T}. Arguments t_table {V T}. Arguments coherent {V T}. Arguments spec_step {V}. Arguments spec_run {V}.
+
+(* execution instance: the tables of a calendar built from its constructor arguments *)
+Definition build_args (v : cal_args) : list Z := let '(h, w, a, b) := v in populate (hol_of h) (wk_of w) a b.
+(* calendar(cal_object, holidays, weekend, t0, t1): `holidays = holidays or list(key.holidays.keys())`,
+   `weekend = weekend or key.weekend`, `t0 = t0 or key.t0`, `t1 = t1 or key.t1` (an empty list is falsy) *)
+Definition or_list (x : option (list Z)) (cur : list Z) : list Z :=
+  match x with Some (y :: l) => y :: l | _ => cur end.
+Definition or_z (x : option Z) (cur : Z) : Z := match x with Some y => y | None => cur end.
+Definition call_arg_obj (h w : option (list Z)) (a b : option Z) (cur : cal_args) : option cal_args :=
+  match h, w, a, b with
+  | None, None, None, None => None
+  | _, _, _, _ => let '(ch, cw, ca, cb) := cur in Some (or_list h ch, or_list w cw, or_z a ca, or_z b cb)
+  end.
